@@ -326,6 +326,23 @@ def do_whole_array(hub, U, letters, rng):
                     t.set_values(vals)
             except Exception:
                 pass
+    # sources the user cannot (or must not) see change: a read-only view of the user's own buffer; a source of another dtype than the
+    # target currently holds (float64 into whole-number or single-precision targets, whole numbers into a float target)
+    if shape:
+        base = gen.values_one("dyadic", rng, shape)
+        ro = base.view()
+        ro.flags.writeable = False
+        for tgt_dtype, src in ((float, ro), (np.int64, base + 0.25), (np.float32, base + 0.125), (float, np.round(base).astype(np.int32)), (float, np.asfortranarray(base))):
+            for via in ("setitem", "set_values"):
+                tt = fd.FlodymArray(dims=gen.dimset(fd, U, letters), values=np.zeros(shape, dtype=tgt_dtype))
+                try:
+                    if via == "setitem":
+                        tt[...] = src
+                    else:
+                        tt.set_values(src)
+                    tt[...] = 1.0  # the target stays an ordinary, writable array of its own
+                except Exception:
+                    pass
     t = fd.FlodymArray(dims=gen.dimset(fd, U, letters), values=gen.values_one("dyadic", rng, shape))
     for f in (lambda: t.set_values(3.5), lambda: t.set_values(fd.FlodymArray(dims=gen.dimset(fd, U, letters))),
               lambda: t.__setitem__(Ellipsis, 2), lambda: t.__setitem__(Ellipsis, [1, 2, 3])):
